@@ -25,10 +25,10 @@ MUTANTS = [
     ("c01-rprs-ignores-reservations", ["C01"], B + "reservable_priority_req_store.py",
      "if len(self.reservations_put) + len(self.items) < self.capacity:",
      "if len(self.items) < self.capacity:"),
-    ("c02-buffer-get-first-reserved", ["C02", "C06"], B + "buffer_store.py",
+    ("c06-buffer-get-first-reserved", ["C06"], B + "buffer_store.py",
      "            assigned_item = self.reserved_items.pop(ev_idx)\n        except IndexError:",
      "            assigned_item = self.reserved_items.pop(0)\n        except IndexError:"),
-    ("c02-rrs-get-pops-first", ["C02", "C06"], B + "reservable_req_store.py",
+    ("c06-rrs-get-pops-first", ["C06"], B + "reservable_req_store.py",
      "        assigned_item = self.items.pop(item_index)\n        self.reserved_events.pop(item_index)",
      "        assigned_item = self.items.pop(0)\n        self.reserved_events.pop(item_index)"),
     ("c04-buffer-get-no-retrigger", ["C04"], B + "buffer_store.py",
@@ -106,6 +106,84 @@ MUTANTS = [
     ("c08-short-processing-when-busy", ["C08"], N + "machine.py",
      "            yield self.env.timeout(processing_delay)\n            #self.stats[\"num_item_processed\"] += 1\n            self._update_avg_time_spent_in_processing",
      "            yield self.env.timeout(processing_delay if len(self.worker_thread_list) < 2 else processing_delay * 0.5)\n            #self.stats[\"num_item_processed\"] += 1\n            self._update_avg_time_spent_in_processing"),
+    ("c02-buffer-get-keeps-item-sometimes", ["C02"], B + "buffer_store.py",
+     "        try:\n            self.ready_items.remove(assigned_item)\n        except ValueError:\n            raise ValueError(f\"Item {assigned_item} not in ready_items.\")\n        self._update_time_averaged_level()\n        return assigned_item",
+     "        try:\n            if len(self.ready_items) != 3:\n                self.ready_items.remove(assigned_item)\n        except ValueError:\n            raise ValueError(f\"Item {assigned_item} not in ready_items.\")\n        self._update_time_averaged_level()\n        return assigned_item"),
+    ("c02-rprs-cancel-drops-item", ["C02"], B + "reservable_priority_req_store.py",
+     "        self.items.insert(delta_position-1, item_to_shift)",
+     "        if len(self.items) != 1:\n          self.items.insert(delta_position-1, item_to_shift)"),
+    ("c09-blocking-machine-discards-when-full", ["C09"], N + "machine.py",
+     "                if self.blocking:\n                    blocking_start_time = self.env.now\n                    print(f\"T={self.env.now:.2f}: {self.id} worker is in BLOCKED_STATE\")",
+     "                if self.blocking and outedge_to_put.can_put():\n                    blocking_start_time = self.env.now\n                    print(f\"T={self.env.now:.2f}: {self.id} worker is in BLOCKED_STATE\")"),
+    ("c09-discard-counted-twice", ["C09", "C18"], N + "machine.py",
+     "                        print(f\"T={ self.env.now:.2f}: {self.id} worker is discarding item {item.id} because out_edge {edge.id} is full.\")\n                        self.stats[\"num_item_discarded\"] += 1",
+     "                        print(f\"T={ self.env.now:.2f}: {self.id} worker is discarding item {item.id} because out_edge {edge.id} is full.\")\n                        self.stats[\"num_item_discarded\"] += 2"),
+    ("c10-machine-keeps-losing-get-tokens", ["C10"], N + "machine.py",
+     "                        if  event is not self.chosen_event:\n                            #print(f\"T={self.env.now:.2f}: {self.id} cancelling  in_edge events  \")\n                            event_cancelled = event.resourcename.reserve_get_cancel(event)",
+     "                        if  event is not self.chosen_event and not event.triggered:\n                            #print(f\"T={self.env.now:.2f}: {self.id} cancelling  in_edge events  \")\n                            event_cancelled = event.resourcename.reserve_get_cancel(event)"),
+    ("c10-sink-cancels-only-pending", ["C10"], N + "sink.py",
+     "        for event in self.in_edge_events:\n        #     if event.triggered:\n               event.resourcename.reserve_get_cancel(event)",
+     "        for event in self.in_edge_events:\n             if not event.triggered:\n               event.resourcename.reserve_get_cancel(event)"),
+    ("c10-machine-keeps-losing-put-tokens", ["C10"], N + "machine.py",
+     "                        if event is not chosen_put_event:\n                            event.resourcename.reserve_put_cancel(event)\n                    #out_edge_events=[]\n\n                    #putting the item in the chosen out_edge\n                    \n                    item.update_node_event(self.id, self.env, \"exit\")\n                    if self.out_edges[edge_index].__class__.__name__  in",
+     "                        if event is not chosen_put_event and not event.triggered:\n                            event.resourcename.reserve_put_cancel(event)\n                    #out_edge_events=[]\n\n                    #putting the item in the chosen out_edge\n                    \n                    item.update_node_event(self.id, self.env, \"exit\")\n                    if self.out_edges[edge_index].__class__.__name__  in"),
+    ("c15-round-robin-starts-at-1", ["C15"], U + "utils.py",
+     "def RoundRobin_edge_selector(node, env, edge_type):\n    i = 0",
+     "def RoundRobin_edge_selector(node, env, edge_type):\n    i = 1"),
+    ("c15-first-available-picks-last-triggered", ["C15"], N + "machine.py",
+     "                    chosen_put_event = next((event for event in out_edge_events if event.triggered), None)\n                    \n                    \n                    #self.out_edge_events.remove(chosen_put_event)  # Remove the chosen event from the list\n                    if chosen_put_event is None:\n                        raise ValueError(f\"{self.env.now},{self.id} - No out_edge available",
+     "                    chosen_put_event = next((event for event in reversed(out_edge_events) if event.triggered), None)\n                    \n                    \n                    #self.out_edge_events.remove(chosen_put_event)  # Remove the chosen event from the list\n                    if chosen_put_event is None:\n                        raise ValueError(f\"{self.env.now},{self.id} - No out_edge available"),
+    ("c15-index-wrapped-not-rejected", ["C15"], N + "machine.py",
+     "        assert 0<= val < len(self.out_edges), f\"{self.id} - Invalid edge index. {val} is not in range. Range must be between {0} and  {len(self.out_edges)-1} for out_edges.\" \n        self.stats[\"out_edge_selection\"].append(val)\n        return val   \n \n\n    def _get_in_edge_index",
+     "        val = val % len(self.out_edges)\n        self.stats[\"out_edge_selection\"].append(val)\n        return val   \n \n\n    def _get_in_edge_index"),
+    ("c15-in-selector-consulted-twice", ["C15"], N + "machine.py",
+     "                    in_edge_index = self._get_in_edge_index()\n                    #print(self.id, in_edge_index)",
+     "                    in_edge_index = self._get_in_edge_index()\n                    in_edge_index = self._get_in_edge_index()\n                    #print(self.id, in_edge_index)"),
+    ("c16-combiner-one-token-short", ["C16"], N + "combiner.py",
+     "                    for _ in range(qty):\n                        # Reserve get operation for the current edge",
+     "                    for _ in range(qty if qty < 3 else qty - 1):\n                        # Reserve get operation for the current edge"),
+    ("c16-splitter-pallet-first", ["C16"], N + "splitter.py",
+     "            while len(pallet.items) > 0:\n                #print(",
+     "            while len(pallet.items) > 1:\n                #print("),
+    ("c17-machine-all-blocked-not-charged", ["C17"], N + "machine.py",
+     "                self.stats[\"total_time_spent_in_states\"][\"ALL_ACTIVE_BLOCKED_STATE\"] += elapsed",
+     "                self.stats[\"total_time_spent_in_states\"][\"ALL_ACTIVE_BLOCKED_STATE\"] += 0"),
+    ("c17-source-blocked-charged-to-generating", ["C17"], N + "source.py",
+     "                        blocking_start_time = self.env.now\n                        print(f\"T={self.env.now:.2f}: {self.id} is in BLOCKED_STATE\")\n                        self.update_state(\"BLOCKED_STATE\", self.env.now)",
+     "                        blocking_start_time = self.env.now\n                        print(f\"T={self.env.now:.2f}: {self.id} is in BLOCKED_STATE\")"),
+    ("c17-machine-final-occupancy-skipped", ["C17"], N + "machine.py",
+     "        self._update_worker_occupancy(\"UPDATE\")\n        self.update_state_rep(simulation_end_time)",
+     "        self.update_state_rep(simulation_end_time)"),
+    ("c18-buffer-average-ignores-ready", ["C18"], B + "buffer_store.py",
+     "        self._last_num_items = len(self.items)+len(self.ready_items)\n        \n        total_time = now",
+     "        self._last_num_items = len(self.items)\n        \n        total_time = now"),
+    ("c18-sink-cycle-time-from-node-entry", ["C18"], N + "sink.py",
+     "self.stats[\"total_cycle_time\"] += self.env.now - self.item_in_process.timestamp_creation",
+     "self.stats[\"total_cycle_time\"] += self.env.now - (self.item_in_process.timestamp_node_entry or self.item_in_process.timestamp_creation)"),
+    ("c18-machine-counts-discard-as-processed", ["C18"], N + "machine.py",
+     "                        print(f\"T={self.env.now:.2f}: {self.id} worker is discarding item {item.id} because out_edge {outedge_to_put.id} is full.\")\n                        self.stats[\"num_item_discarded\"] += 1",
+     "                        print(f\"T={self.env.now:.2f}: {self.id} worker is discarding item {item.id} because out_edge {outedge_to_put.id} is full.\")\n                        self.stats[\"num_item_discarded\"] += 1\n                        self.stats[\"num_item_processed\"] += 1"),
+    ("c20-edge-accepts-fractional-capacity", ["C20"], E + "edge.py",
+     "        if not isinstance(self.capacity, int) or self.capacity <= 0:",
+     "        if self.capacity <= 0:"),
+    ("c20-buffer-mode-unchecked", ["C20"], E + "buffer.py",
+     "          if self.mode not in [\"FIFO\", \"LIFO\"]:",
+     "          if self.mode is None:"),
+    ("c20-delay-sign-unchecked", ["C20"], N + "node.py",
+     "        assert val >= 0, f\"{self.id}- Delay must be non-negative\"",
+     "        val = abs(val)"),
+    ("c20-fleet-never-rearms", ["C20", "C14"], B + "fleet_store.py",
+     "            if self.activate_fleet.triggered:\n                #print(\"yes\")\n                self.activate_fleet = self.env.event()  # Reset the event for next activation",
+     "            if self.activate_fleet.triggered and False:\n                #print(\"yes\")\n                self.activate_fleet = self.env.event()  # Reset the event for next activation"),
+    ("c19-random-policy-unseeded", ["C19"], U + "utils.py",
+     "        yield random.randint(0, len(edges) - 1)",
+     "        yield random.SystemRandom().randint(0, len(edges) - 1)"),
+    ("c19-random-policy-uses-str-hash", ["C19"], U + "utils.py",
+     "        yield random.randint(0, len(edges) - 1)",
+     "        yield hash('t%r' % env.now) % len(edges)"),
+    ("c19-first-available-by-address", ["C19"], N + "source.py",
+     "                        self.out_edge_events = [edge.reserve_put() for edge in self.out_edges]",
+     "                        self.out_edge_events = [edge.reserve_put() for edge in sorted(self.out_edges, key=id)]"),
 ]
 
 
